@@ -644,7 +644,10 @@ pub fn check_history(sc: &E1Scenario, calls: &[Call], rep: &mut RunReport) {
         if let (Op::Required { .. }, Some(m)) = (&c.op, &live_slot) {
             if c.resp.ret != 1 {
                 rep.violate(&["C19"], "C19.3-required-fails-on-live", format!("call {i}: get_required_files failed on live task {}", c.id));
-            } else if m.supplied.values().all(|v| v.1.is_some()) {
+            } else if m.supplied.values().all(|v| v.1.is_some()) && m.supplied.keys().all(|k| *k == indep::norm(k)) {
+                // (file names that are not normalised: whether `/a/./b` or `/a/zz/../b` "is" the
+                // supplied `/a/b` is not said by the statement; only projection, ids and traps
+                // are judged for such tasks)
                 let mut expect = BTreeSet::new();
                 for (name, (_, imports)) in &m.supplied {
                     for spec in imports.as_ref().unwrap() {
@@ -847,6 +850,21 @@ const LOADER_CONFIGS: &[&str] = &[
     "extensions:\n  nitrogql:\n    generate:\n      mode: standalone-ts-4.0\n      name:\n        mutationVariableSuffix: Mut\n        subscriptionVariableSuffix: Sub\n      export:\n        variablesType: true\n        operationResultType: true\n",
 ];
 
+/// Another spelling of an absolute path (`/a/./b`, `/a/zz/../b`): what a host passes when it joins
+/// paths without normalising them.
+fn respell(rs: &mut Rng, path: &str) -> String {
+    let dir = indep::dirname(path);
+    let base = indep::basename(path);
+    match rs.below(3) {
+        0 => format!("{dir}/./{base}"),
+        1 => format!("{dir}/zz/../{base}"),
+        _ => {
+            let last = indep::basename(dir);
+            if last.is_empty() { format!("{dir}/./{base}") } else { format!("{dir}/../{last}/{base}") }
+        }
+    }
+}
+
 pub fn gen_scenario(run_seed: u64, variant: &str, tier: Tier) -> E1Scenario {
     let base = Rng::new(run_seed);
     let mut rw = base.fork("workload");
@@ -1017,7 +1035,10 @@ pub fn gen_scenario(run_seed: u64, variant: &str, tier: Tier) -> E1Scenario {
                         next_slot += 1;
                         continue;
                     }
-                    ops.push(Op::Initiate { slot: next_slot, file: sc.files[f].path.clone(), src: fv.text.clone(), imports: fv.imports.clone() });
+                    // the l2 class also uses file names that are not normalised (the c13 class compares
+                    // with the library over normalised names and keeps them)
+                    let name = if variant == "l2" && rs.chance(1, 8) { respell(&mut rs, &sc.files[f].path) } else { sc.files[f].path.clone() };
+                    ops.push(Op::Initiate { slot: next_slot, file: name, src: fv.text.clone(), imports: fv.imports.clone() });
                     live.push(next_slot);
                     next_slot += 1;
                 }
@@ -1032,7 +1053,8 @@ pub fn gen_scenario(run_seed: u64, variant: &str, tier: Tier) -> E1Scenario {
                         ops.push(Op::Load { t: pick_ref(&mut rs, &live, &freed, jf), file: sc.files[f].path.clone(), src: src.into(), imports: None });
                         continue;
                     }
-                    ops.push(Op::Load { t: pick_ref(&mut rs, &live, &freed, jf), file: sc.files[f].path.clone(), src: fv.text.clone(), imports: fv.imports.clone() });
+                    let name = if variant == "l2" && rs.chance(1, 10) { respell(&mut rs, &sc.files[f].path) } else { sc.files[f].path.clone() };
+                    ops.push(Op::Load { t: pick_ref(&mut rs, &live, &freed, jf), file: name, src: fv.text.clone(), imports: fv.imports.clone() });
                 }
                 3 => ops.push(Op::Emit { t: pick_ref(&mut rs, &live, &freed, jf) }),
                 4 => {
